@@ -316,4 +316,19 @@ example : ((buildL Xxp.base tXpOk = none ∧ (validateX Xxp CxpW {} tXpOk).errs 
       (by decide +kernel) (by decide +kernel) rfl)
     (by decide +kernel)
 
+/-- the witness constraints with TWO whens of different origin on `b`: its own (`when "../a = 'x'"`, context node = `b`) and one inherited from
+a `uses` / `augment` statement (`when "a = 'x'"`, context node = the data parent of `b`; table key `sid + #nodes`, `inhWhens`) -/
+def CxpW2 : XCons := { whens := [(2, bytesOfString "../a = 'x'"), (2 + Xxp.base.nodes.length, bytesOfString "a = 'x'")] }
+
+/-- non-vacuity of the per-`when` context node (`lyd_validate_node_when` takes it from `when->context` of EACH `when`): the node `b` has one
+`when` of each origin, both hold for `a = x` and the instance is accepted; with `a = y` a `NoWhen` is logged; and the same inherited
+expression evaluated with the node itself as context (the table entry under the node's own key — one level too deep) rejects the
+valid instance -/
+example : whensOf Xxp.base CxpW2.whens 2 = [(true, bytesOfString "../a = 'x'"), (false, bytesOfString "a = 'x'")] ∧
+    (validateX Xxp CxpW2 {} tXpOk).errs = [] ∧
+    whenAllHold (xpBool CxpW2.mask Xxp.base) Xxp CxpW2.whens (rfcComplete Xxp {} tXpOk) = true ∧
+    (validateX Xxp CxpW2 {} tXpBadMust).errs.map (·.kind) = [.noWhen] ∧
+    (validateX Xxp { whens := [(2, bytesOfString "../a = 'x'"), (2, bytesOfString "a = 'x'")] } {} tXpOk).errs.map (·.kind) = [.noWhen] := by
+  refine ⟨by decide +kernel, by decide +kernel, by decide +kernel, by decide +kernel, by decide +kernel⟩
+
 end LyModel.Props.C02
